@@ -512,10 +512,16 @@ func (i *Interpreter) ExecuteRoute(route *Route, request *Request) (*Response, e
 	routeEnv := NewChildEnvironment(i.globalEnv)
 	routeEnv.depth = new(int64)
 
-	// Extract path parameters
-	params, err := extractPathParams(route.Path, request.Path)
-	if err != nil {
-		return nil, err
+	// Path parameters: the router that matched the request has already bound
+	// them (request.Params); deriving them again here could disagree with its
+	// matching rules. Without a router (direct callers) they come from the path.
+	params := request.Params
+	if params == nil {
+		var err error
+		params, err = extractPathParams(route.Path, request.Path)
+		if err != nil {
+			return nil, err
+		}
 	}
 
 	// Add path parameters to environment
